@@ -320,15 +320,13 @@ def bounded_cross_check(report, tier, seed):
     from specs import ir_sem as S
 
     rng = random.Random(seed)
-    exprs = enum_expressions(1)
-    if tier == "thorough":
-        d2 = enum_expressions(2)
-        rng.shuffle(d2)
-        exprs = exprs + d2[:60000]
-    else:
-        d2 = enum_expressions(2)
-        rng.shuffle(d2)
-        exprs = exprs + d2[:6000]
+    d1 = enum_expressions(1)
+    exprs = list(d1)
+    ops2 = [ir.Add, ir.Subtract, ir.Multiply, ir.Equal, ir.NotEqual, ir.GreaterThan, ir.LessThan, ir.GreaterThanOrEqual,
+            ir.LessThanOrEqual, ir.And, ir.Or, ir.Max, ir.Min]
+    for _ in range(60000 if tier == "thorough" else 6000):
+        op = rng.choice(ops2 + [ir.BooleanToInteger])
+        exprs.append(op(rng.choice(d1)) if op is ir.BooleanToInteger else op(rng.choice(d1), rng.choice(d1)))
     ints = [S.VI(0), S.VI(1), S.VI(2), S.VI(-1)]
     envs = []
     for i, j, x in itertools.product(ints, ints[:3], [S.VF(0.0), S.VF(1.0), S.VF(-2.5)]):
